@@ -52,9 +52,32 @@ def run(ctx):
     # D1
     f = prog.method("types::constructions::WinCons", None, "u_value")
     sc, vals, others = some_return(prog, f)
-    ctx.require(len(vals) == 1, "WinCons::u_value: expected one Some(..) return")
+    ctx.require(len(vals) >= 1, "WinCons::u_value: no Some(..) return found")
     lm = LeafMap({"self.delta_u": "dU", "self.f_f": "Ff"}, [(r"get_frame\(.*\)(\?|@Some\.0)\.u_value$", "Uf"), (r"get_glass\(.*\)(\?|@Some\.0)\.u_value$", "Ug")])
-    compare(ctx, "c07.formula", "c07.formula|WinCons::u_value", vals[0], "r2((1 + dU/100) * (Uf*Ff + Ug*(1 - Ff)))", lm, None, f.loc(), "U_W")
+    REF = "r2((1 + dU/100) * (Uf*Ff + Ug*(1 - Ff)))"
+    if len(vals) == 1:
+        compare(ctx, "c07.formula", "c07.formula|WinCons::u_value", vals[0], REF, lm, None, f.loc(), "U_W")
+    else:
+        # several results (an early return for a special case): each must be the formula, or the formula with the frame fraction at the bound its path tests
+        from ..formulas import FNormalizer
+        special = {"Ff = 0": "r2((1 + dU/100) * Ug)", "Ff = 1": "r2((1 + dU/100) * Uf)"}
+        general = 0
+        for v in vals:
+            nz = FNormalizer(lm, {}, strict=False)
+            code = nz.code(v)
+            if not nz.unknown and code.equals(nz.ref(REF)):
+                general += 1
+                continue
+            hit = [k_ for k_, r_ in special.items() if not nz.unknown and code.equals(nz.ref(r_))]
+            if hit:
+                ctx.ok("c07.formula", "c07.formula|WinCons::u_value|%s" % hit[0], "special case written out: U_W for %s" % hit[0], f.loc())
+            else:
+                ctx.violation("c07.formula", "c07.formula|WinCons::u_value|extra-result", "one of the results of WinCons::u_value is %s: neither the formula %s nor the formula for a "
+                              "frameless or all-frame window (the thermal-bridge increment dU or a term is missing on that path)" % (str(code)[:120], REF), f.loc())
+        if general >= 1:
+            ctx.ok("c07.formula", "c07.formula|WinCons::u_value", "U_W = %s" % REF, f.loc())
+        elif not any(i.key.startswith("c07.formula|WinCons::u_value|extra") for i in ctx.instances):
+            raise AnalysisError("WinCons::u_value: none of its %d results is the general formula" % len(vals))
     # D3: a U-value exactly when glazing and frame both resolve (truth table over the two lookups, however they are tested: `?`, match, if let)
     from .. import tables as TB
     bad = []
